@@ -37,3 +37,10 @@ package grpcjson
 //@ ensures [malformed-line-fails-the-run-unless-continue-on-error] imp(calls(decodeAmmo) > 0 && result_of(decodeAmmo, 1) != nil && !p.Config.ContinueOnError, result != nil)
 //@ ensures [never-beyond-the-limit] imp(p.Limit > 0, sent(p.Sink) - sent0 <= p.Limit)
 //@ ensures [a-clean-end-means-every-pass-was-checked-for-scan-failures] imp(result == nil && !done(ctx), calls(scanner.Err) == passNum && result_of(scanner.Err, 0) == nil)
+
+// The provider reads the file named by `source.path` when given (else `file`) through the given file system, and its run
+// is its own start function.
+//@ func NewProvider
+//@ props C08 C20
+//@ ensures [source-path-wins-over-file] imp(conf.Source.Path != "", result.Config.File == conf.Source.Path) && imp(conf.Source.Path == "", result.Config.File == conf.File)
+//@ at call ammo.NewProvider assert [the-given-file-system-and-the-chosen-file] arg(fs) == fs0 && arg(fileName) == ite(conf0.Source.Path != "", conf0.Source.Path, conf0.File)
